@@ -113,6 +113,15 @@ CLASSES = {
                                              elec_model=New('pmutt.statmech.elec:GroundStateElec', potentialenergy=Real(-20., -1.), spin=Const(0.))))]),
             descriptor=Const('elements'), _post=dict(offset=DictOf({'H': R}), T_ref=Real(250., 350.))),
         ['offset', 'T_ref', 'descriptor']),
+    'References+species(offsets-cleared)': (
+        New('pmutt.empirical.references:References',
+            references=ListOf([New('pmutt.empirical.references:Reference', name=Const('H2'), elements=Const({'H': 2}), T_ref=Const(298.15),
+                                   HoRT_ref=R, phase=Const('G'),
+                                   model=New('pmutt.statmech:StatMech', name=Const('H2'),
+                                             elec_model=New('pmutt.statmech.elec:GroundStateElec', potentialenergy=Real(-20., -1.), spin=Const(0.))))]),
+            descriptor=Const('elements'), _post=dict(offset=Const({}))),
+        ['offset', 'T_ref', 'descriptor']),
+    'vanDerWaalsEOS(from_critical)': (New('pmutt.eos:vanDerWaalsEOS', _via='from_critical', Tc=Real(100., 700.), Pc=Real(10., 250.)), ['a', 'b']),
     'SurfaceReaction': (reaction('pmutt.omkm.reaction:SurfaceReaction', id=Const('r_0001'), is_adsorption=Const(False), beta=Real(0., 2.),
                                  direction=Const('synthesis'), use_motz_wise=Const(True)),
                         ['reactants', 'products', 'id', 'beta', 'is_adsorption', 'direction', 'use_motz_wise']),
